@@ -183,6 +183,10 @@ func (e *Engine) verifyFunction(fn *ssa.Function, noMerge bool) *FuncReport {
 				c2.Label = "iface:" + c.Label
 				ifaceClauses = append(ifaceClauses, c2)
 			}
+			if ic.HasMod && len(ic.Modifies) == 0 && len(ct.Modifies) > 0 && !rep.HasCtr {
+				// thin default contract: the interface contract is stricter, adopt it
+				ct.Modifies = nil
+			}
 			if ic.HasMod && len(ic.Modifies) == 0 && len(ct.Modifies) > 0 {
 				ex.fail("interface contract " + key + " says `modifies nothing` but this implementor declares modifies " + strings.Join(ct.Modifies, ", "))
 			}
